@@ -392,11 +392,11 @@ theorem pickFlight_mem {s : Net} {a b i pos : Nat} {f : Flight} (h : pickFlight 
 
 theorem process_nodes (s : Net) (a b : Node) (m : Adv) (x : Node) :
     (process s a b m).1.nodes x =
-      if x = b then (handle s.maxHops (peersOf s b) b a s.clock m (s.nodes b)).1 else s.nodes x := rfl
+      if x = b then (handle (s.maxHops b) (peersOf s b) b a s.clock m (s.nodes b)).1 else s.nodes x := rfl
 
 theorem process_flight (s : Net) (a b : Node) (m : Adv) :
     (process s a b m).1.flight = s.flight ++
-      (handle s.maxHops (peersOf s b) b a s.clock m (s.nodes b)).2.1.map
+      (handle (s.maxHops b) (peersOf s b) b a s.clock m (s.nodes b)).2.1.map
         (fun (pf : Node × Adv) => ({ src := b, dst := pf.1, adv := pf.2 } : Flight)) := rfl
 
 theorem process_const (s : Net) (a b : Node) (m : Adv) :
@@ -433,7 +433,7 @@ namespace MM.C11
     frame that was in flight on a link `a → x`. -/
 def StoredBy (t : Net) (x : Node) (e : Entry) : Prop :=
   ∃ a m, (⟨a, x, m⟩ : Flight) ∈ t.flight ∧ linked t a x = true ∧ a < t.n ∧ x < t.n ∧ m.wd = false ∧
-    Accepts t.maxHops x m (t.nodes x) ∧ x ∉ m.path ∧ ∃ r, r ∈ m.routes ∧ e = mkEntry r m a t.clock
+    Accepts (t.maxHops x) x m (t.nodes x) ∧ x ∉ m.path ∧ ∃ r, r ∈ m.routes ∧ e = mkEntry r m a t.clock
 
 theorem entries_process {t : Net} {fl : List Flight} {a b x : Node} {f : Flight} {e : Entry}
     (hf : f ∈ t.flight) (hsrc : f.src = a) (hdst : f.dst = b)
@@ -792,7 +792,7 @@ inductive FlightFrom (t : Net) (op : Op) (f : Flight) : Prop where
       (ha : a < t.n) (hb : f.src < t.n) (hd : f.dst ∈ peersOf t f.src) (hne : f.dst ≠ a)
       (hns : f.dst ∉ m.seenBy) (hself : f.dst ≠ f.src)
       (hseen : (m.origin, m.seq) ∉ (t.nodes f.src).seen) (hsb : f.src ∉ m.seenBy)
-      (hlim : m.wd = false → ¬ (t.maxHops > 0 ∧ hopsOf m ≥ t.maxHops))
+      (hlim : m.wd = false → ¬ (t.maxHops f.src > 0 ∧ hopsOf m ≥ t.maxHops f.src))
       (hwire : m.wd = false → m.seenBy.length + 1 ≤ maxWireAgents ∧ m.path.length + 1 ≤ maxWireAgents)
       (hadv : f.adv = fwdAdv f.src m)
   /-- `WithdrawLocalRoutes` at `f.src` -/
@@ -802,7 +802,7 @@ inductive FlightFrom (t : Net) (op : Op) (f : Flight) : Prop where
   /-- `SendFullTable(f.dst)` at `f.src` -/
   | rep (ord : List RFrame) (hop : op = .replay f.src f.dst ord) (ha : f.src < t.n) (hb : f.dst < t.n)
       (hl : linked t f.src f.dst = true)
-      (hadv : f.adv ∈ replayAdvs (hopCap t.maxHops) f.src f.dst (t.nodes f.src) ord)
+      (hadv : f.adv ∈ replayAdvs (hopCap (t.maxHops f.src)) f.src f.dst (t.nodes f.src) ord)
 
 theorem flight_process {t : Net} {op : Op} {fl : List Flight} {a b : Node} {f0 f : Flight}
     (hsub : ∀ g, g ∈ fl → g ∈ t.flight)
@@ -1095,7 +1095,7 @@ def selfOnly (a : Node) (m : Adv) : Bool := m.origin == a && m.path == [a]
 /-- `replay` ops are benign when SendFullTable only sends the replayer's own (local) routes — the
     initial table exchange on a fresh link — i.e. no route of ANOTHER origin is re-advertised. -/
 def benignOp (s : Net) : Op → Bool
-  | .replay a b ord => (replayAdvs (hopCap s.maxHops) a b (s.nodes a) ord).all (selfOnly a)
+  | .replay a b ord => (replayAdvs (hopCap (s.maxHops a)) a b (s.nodes a) ord).all (selfOnly a)
   | _ => true
 
 def benignRun (s : Net) : List Op → Bool
@@ -1121,7 +1121,7 @@ theorem run_induction_benign {P : Net → Prop} (s : Net) (ops : List Op) (h0 : 
     exact ih (step s op) (hstep s op h0 hb.1) hb.2
 
 theorem benign_replay {s : Net} {a b : Node} {ord : List RFrame} {m : Adv}
-    (hb : benignOp s (.replay a b ord) = true) (hm : m ∈ replayAdvs (hopCap s.maxHops) a b (s.nodes a) ord) :
+    (hb : benignOp s (.replay a b ord) = true) (hm : m ∈ replayAdvs (hopCap (s.maxHops a)) a b (s.nodes a) ord) :
     m.origin = a ∧ m.path = [a] := by
   simp only [benignOp, List.all_eq_true] at hb
   have := hb m hm
